@@ -21,7 +21,7 @@ import itertools
 from . import _logrules as LR
 from ..engines.symexec import SymExec, Opaque
 from ..engines.logspace import NORM, TOTALNORM
-from ..srcmodel import AnalysisError, U, calls_in, walk_shallow, kwarg
+from ..srcmodel import clone, AnalysisError, U, calls_in, walk_shallow, kwarg
 from ..symexpr import Alg, Rat, sym, const, Atoms
 
 MECH = 'mechanisms/mechanism.py'
@@ -117,11 +117,11 @@ def unwrap_prob(pe, ex):
             class Sub(ast.NodeTransformer):
                 def visit_Name(self, node):
                     if node.id in mapping:
-                        return copy.deepcopy(mapping[node.id])
+                        return clone(mapping[node.id])
                     if node.id in hdefs:
-                        return self.visit(copy.deepcopy(hdefs[node.id]))
+                        return self.visit(clone(hdefs[node.id]))
                     return node
-            return unwrap_prob(Sub().visit(copy.deepcopy(rets[0].value)), ex)
+            return unwrap_prob(Sub().visit(clone(rets[0].value)), ex)
     # X / np.sum(X) or X / X.sum() after inlining
     if isinstance(pe, ast.BinOp) and isinstance(pe.op, ast.Div) and isinstance(pe.right, ast.Call) and \
             U(pe.right.func).split('.')[-1] == 'sum' and pe.right.args and U(pe.right.args[0]) == U(pe.left):
